@@ -155,6 +155,38 @@ fn create_ts_authinfo(auth_info: Vec<u8>) -> Vec<u8> {
     to_der(&ts_authinfo)
 }
 
+/// Read a complete TSRequest from the link
+///
+/// Nothing frames a TSRequest but its own DER header : a server is free
+/// to send it in several TLS records and it may be larger than what
+/// one read of the link returns, so read the header first then
+/// the announced length
+fn read_ts_request<S: Read + Write>(link: &mut Link<S>) -> RdpResult<Vec<u8>> {
+    // Sequence tag and first byte of the length
+    let mut request = link.read(2)?;
+    let length = if request[1] & 0x80 == 0 {
+        request[1] as usize
+    } else {
+        // Long form : number of bytes of the length
+        // A request carries NTLM tokens and a public key : three bytes are far enough
+        let size = (request[1] & 0x7f) as usize;
+        if size == 0 || size > 3 {
+            return Err(Error::RdpError(RdpError::new(RdpErrorKind::InvalidSize, "CSSP: invalid length of TSRequest")))
+        }
+        let length = link.read(size)?;
+        request.extend_from_slice(&length);
+        length.iter().fold(0, |size, byte| (size << 8) | *byte as usize)
+    };
+    if length > 0x20000 {
+        return Err(Error::RdpError(RdpError::new(RdpErrorKind::InvalidSize, "CSSP: TSRequest too large")))
+    }
+    // a link read of size 0 means all that is available
+    if length > 0 {
+        request.extend_from_slice(&link.read(length)?);
+    }
+    Ok(request)
+}
+
 /// This the main function for CSSP protocol
 /// It will use the raw link layer and the selected authenticate protocol
 /// to perform the NLA authenticate
@@ -164,7 +196,7 @@ pub fn cssp_connect<S: Read + Write>(link: &mut Link<S>, authentication_protocol
     link.write(&negotiate_message)?;
 
     // now receive server challenge
-    let server_challenge = read_ts_server_challenge(&(link.read(0)?))?;
+    let server_challenge = read_ts_server_challenge(&read_ts_request(link)?)?;
 
     // now ask for to authenticate protocol
     let client_challenge = authentication_protocol.read_challenge_message(&server_challenge)?;
@@ -181,7 +213,7 @@ pub fn cssp_connect<S: Read + Write>(link: &mut Link<S>, authentication_protocol
     link.write(&challenge)?;
 
     // now server respond normally with the original public key incremented by one
-    let inc_pub_key = security_interface.gss_unwrapex(&(read_ts_validate(&(link.read(0)?))?))?;
+    let inc_pub_key = security_interface.gss_unwrapex(&(read_ts_validate(&read_ts_request(link)?)?))?;
 
     // Check possible man in the middle using cssp
     if BigUint::from_bytes_le(&inc_pub_key) != BigUint::from_bytes_le(certificate.tbs_certificate.subject_pki.subject_public_key.data) + BigUint::new(vec![1]) {
